@@ -34,14 +34,13 @@ def rows(prog):
                                    3: ("opslimit", pre + "_OPSLIMIT_MIN", pre + "_OPSLIMIT_MAX"),
                                    4: ("memlimit", pre + "_MEMLIMIT_MIN", pre + "_MEMLIMIT_MAX")},
                     {"argon2%s_hash_encoded" % alg}))
+    # scrypt: the wrapper maps (opslimit, memlimit) to (N, r, p) by pickparams(), which by design accepts any value
+    # (clamping opslimit to its minimum); the upstream vectors themselves use memlimit < MEMLIMIT_MIN. The property's
+    # "reject out-of-range parameters" is carried for scrypt by the length limits here and the (N, r, p) guards (R8.1s).
     out.append((SC, {1: ("outlen", SC + "_BYTES_MIN", SC + "_BYTES_MAX"),
-                     3: ("passwdlen", SC + "_PASSWD_MIN", SC + "_PASSWD_MAX"),
-                     5: ("opslimit", SC + "_OPSLIMIT_MIN", SC + "_OPSLIMIT_MAX"),
-                     6: ("memlimit", SC + "_MEMLIMIT_MIN", SC + "_MEMLIMIT_MAX")},
+                     3: ("passwdlen", SC + "_PASSWD_MIN", SC + "_PASSWD_MAX")},
                 {SC + "_ll"}))
-    out.append((SC + "_str", {2: ("passwdlen", SC + "_PASSWD_MIN", SC + "_PASSWD_MAX"),
-                              3: ("opslimit", SC + "_OPSLIMIT_MIN", SC + "_OPSLIMIT_MAX"),
-                              4: ("memlimit", SC + "_MEMLIMIT_MIN", SC + "_MEMLIMIT_MAX")},
+    out.append((SC + "_str", {2: ("passwdlen", SC + "_PASSWD_MIN", SC + "_PASSWD_MAX")},
                 {"escrypt_r"}))
     return out
 
